@@ -341,7 +341,7 @@ func runC18(c *Ctx, r *Report) {
 			"the entry is returned unsealed only when no link key is configured or it has no links at all",
 			"PreSign can return the entry with its links in clear although a link key is configured and the entry has predecessors or references")
 	})
-	r.Floor("R-C18.3", "success returns of PreSign", nps, 3)
+	r.Floor("R-C18.3", "success returns of PreSign", nps, 2)
 	_ = entryParam
 
 	// ---- R-C18.4
